@@ -300,6 +300,10 @@ class Gen:
             if len(normal) >= 2:
                 a, b = r.sample(normal, 2)
                 o.dep_req = {a.name: [b.name]}
+                if r.random() < 0.35:
+                    grp = [f.name for f in r.sample(normal, min(len(normal), r.choice([2, 2, 3])))]
+                    o.dep_req = {x: [y for y in grp if y != x] for x in grp}
+                    o.dep_req_groups = [grp]
         if self.pattern_overlap and kind == "dataclass" and r.random() < 0.4:
             pats = [f.pattern for f in o.fields if f.pattern is not None]
             plain = [f for f in o.fields if not f.aggregate and f.alias is None and not f.initvar and not f.init_false]
@@ -552,6 +556,15 @@ def directed_shapes():
         return o
 
     out.append(("dependent-required", dep_req))
+
+    def dep_req_group(g):
+        o = dep_req(g)
+        names = [f.name for f in o.fields]
+        o.dep_req = {x: [y for y in names if y != x] for x in names}
+        o.dep_req_groups = [names]
+        return o
+
+    out.append(("dependent-required-group", dep_req_group))
     for vals in (["a"], [1], [True], ["a", "b"], [0, ""]):
         out.append((f"opt-literal:{vals!r}", lambda g, vals=vals: opt(Lit(list(vals)))))
         out.append((f"opt-literal-field:{vals!r}", holder(lambda vals=vals: opt(Lit(list(vals))))))
